@@ -38,7 +38,8 @@ REACH = {
     "quick": {"cuts": 20000, "cut_in_magic": 100, "cut_in_header_map": 100, "cut_in_header_sync": 100,
               "cut_in_block_count": 20, "cut_in_block_count_2byte": 20, "cut_in_block_size": 100,
               "cut_in_payload": 100, "cut_in_sync": 100, "cut_on_boundary": 100,
-              "sync_alterations": 500, "schemaless_prefixes": 500, "files": 40},
+              "sync_alterations": 500, "schemaless_prefixes": 500, "files": 40,
+              "cuts_big_values": 2000, "schemaless_prefixes_big_values": 1000},
     "thorough": {"cuts": 1000000, "files": 1000},
 }
 
@@ -243,6 +244,52 @@ def fixed_corpus(rng, shard):
     return [({"type": "array", "items": "int"}, [[i] for i in range(n)], "ref", None)]
 
 
+def big_value_file(sh, fa, rng, k):
+    """Values longer than any internal read chunk (64 KiB): cuts inside them, in container
+    blocks and in schemaless encodings (sampled offsets; the files are ~300 KB)."""
+    js = {"type": "record", "name": "Big", "fields": [{"name": "id", "type": "long"}, {"name": "payload", "type": "bytes" if k % 2 else "string"}]}
+    node, _e = RS.build(js)
+    mk = (lambda i: bytes([i]) * (70000 + 1000 * i)) if k % 2 else (lambda i: chr(97 + i) * (70000 + 1000 * i))
+    recs = [{"id": i, "payload": mk(i)} for i in range(3)]
+    enc = [RB.encode(node, RC.from_datum(node, r)) for r in recs]
+    partition = [[1, 1, 1], [3], [2, 1], [1, 2]][k % 4]
+    data, bounds = RK.write(js, enc, partition, codec="null" if k < 8 else "deflate", sync=b"\x31" * 16)
+    cum = [0]
+    for c in partition:
+        cum.append(cum[-1] + c)
+    at_boundary = {b: cum[i] for i, b in enumerate(bounds)}
+    info0 = {"schema": js, "records": None, "how": "big", "partition": partition}
+    offs = set()
+    for b in bounds:
+        offs |= {b + d for d in range(-20, 21)}
+    offs |= {rng.randrange(bounds[0], len(data)) for _ in range(150)}
+    for cut in sorted(o for o in offs if 0 < o < len(data)):
+        use_blocks = cut % 3 == 0
+        got, err = read_until(fa, data[:cut], use_blocks)
+        sh.count("cuts_big_values")
+        info = dict(info0, cut=cut, api="block_reader" if use_blocks else "reader")
+        if len(got) > len(recs) or not all(RC.same(a, b) for a, b in zip(got, recs)):
+            sh.violation("yielded-unwritten-record", "cut at %d of a file with 70 KB values: yielded a record that was not written (%s)"
+                         % (cut, printable(got[-1:], 120)), info)
+            return
+        if cut in at_boundary:
+            if err is not None or len(got) != at_boundary[cut]:
+                sh.violation("boundary-cut-wrong-count", "cut on boundary %d: %s, %d records" % (cut, exc_name(err) if err else "ended", len(got)), info)
+                return
+        elif err is None:
+            sh.violation("off-boundary-cut-ended-normally", "cut at %d (not a block boundary) ended normally after %d records" % (cut, len(got)), info)
+            return
+    blob = enc[2]
+    for cut in sorted({rng.randrange(1, len(blob)) for _ in range(120)} | {1, 2, 3, 4, 5, len(blob) - 1, 65536, 65537, 65540, 65541}):
+        hue = (None, "replace", "ignore")[cut % 3]
+        st, got = guard(fa.schemaless_reader, io.BytesIO(blob[:cut]), js, **({"handle_unicode_errors": hue} if hue else {}))
+        sh.count("schemaless_prefixes_big_values")
+        if st == "ok":
+            sh.violation("schemaless-prefix-accepted", "%d-byte prefix of a %d-byte encoding (70 KB value) returned a value" % (cut, len(blob)),
+                         dict(info0, cut=cut))
+            return
+
+
 def run_shard(spec):
     import fastavro as fa
 
@@ -262,6 +309,7 @@ def run_shard(spec):
         for js, recs, how, intervals in fixed_corpus(rng, spec["shard"]):
             node, env = RS.build(js)
             sh.run_case(check_file, sh, fa, rng, {"schema": js, "node": node}, recs, how, intervals)
+    sh.run_case(big_value_file, sh, fa, rng, spec["shard"])
     i = 0
     while i < spec["n"] and not sh.out_of_time():
         i += 1
